@@ -57,6 +57,8 @@ type Term struct {
 	name   string // for vars
 }
 
+const maxTerms = 12_000_000
+
 type tkey struct {
 	op         Op
 	w          uint8
@@ -131,6 +133,9 @@ func (ts *TermStore) mk(op Op, w uint8, c uint64, args ...*Term) *Term {
 		t = &Term{op: op, w: w, c: c, args: args}
 		ts.hcN[k] = t
 	}
+	if len(ts.terms) >= maxTerms {
+		panic(pathEnd{"budget", "term budget exceeded (instance too large for this engine)"})
+	}
 	t.id = int32(len(ts.terms))
 	ts.terms = append(ts.terms, t)
 	ts.setRange(t)
@@ -182,8 +187,13 @@ func (ts *TermStore) setRange(t *Term) {
 		t.lo, t.hi = a[0].lo, a[0].hi
 	case OpExtract:
 		lo := uint8(t.c & 0xff)
+		hiBit := uint8(t.c >> 8)
 		if a[0].hi>>lo <= m {
 			t.lo, t.hi = a[0].lo>>lo, a[0].hi>>lo
+		} else if hiBit < 63 && a[0].lo>>(hiBit+1) == a[0].hi>>(hiBit+1) {
+			// the cut-off high part is the same over the whole interval: the kept bits are monotone
+			km := (uint64(1) << (hiBit + 1)) - 1
+			t.lo, t.hi = (a[0].lo&km)>>lo, (a[0].hi&km)>>lo
 		}
 	case OpAdd:
 		h, carry := bits.Add64(a[0].hi, a[1].hi, 0)
